@@ -146,7 +146,7 @@ type unclePick struct {
 }
 
 func TestVerifyUnclesIff(t *testing.T) {
-	ev.Check(t, cases(4000, 160_000), func(t *rapid.T) {
+	ev.Check(t, cases(4000, 128_000), func(t *rapid.T) {
 		n := drawUncleNet(t)
 		N := drawBlockNumber(t, n.s)
 		L := uint64(rapid.IntRange(8, 10).Draw(t, "depth"))
